@@ -53,10 +53,12 @@ class Adapter(EnvAdapter):
             def reset(self, key):
                 board = table[key[1] % table.shape[0]]
                 action_mask = self._get_action_mask(board)
-                obs = Observation(board=board, action_mask=action_mask)
-                state = State(board=board, step_count=jnp.array(0, jnp.int32), action_mask=action_mask, key=key,
-                              score=jnp.array(0, float))
-                return state, restart(observation=obs, extras={"highest_tile": 2 ** jnp.max(board)})
+                tpl_state, tpl_ts = super().reset(key)          # the library's own reset: every field State / extras have
+                obs = inject.state_like(tpl_ts.observation, board=board, action_mask=action_mask)
+                state = inject.state_like(tpl_state, board=board, step_count=jnp.array(0, jnp.int32), action_mask=action_mask,
+                                          key=key, score=jnp.array(0, float))
+                extras = dict(tpl_ts.extras or {}, highest_tile=2 ** jnp.max(board))
+                return state, restart(observation=obs, extras=extras)
 
         return Injected(**cfg["ctor"])
 
